@@ -361,6 +361,10 @@ type tunIn struct {
 	// tcp transport: the listener's read/write timeouts (tcp.Server.ReadTimeout/WriteTimeout, the `rt=`/`wt=`
 	// listener options) and a steady trickle: `cgap_ms`/`ugap_ms` between the client's / the upstream's segments.
 	// Every single gap is well below the timeout, the whole exchange lasts several timeouts.
+	// script transport: full-duplex overlap — the client's segments from index `hold` on are released at the moment
+	// the proxy begins to write upstream data to the client, and that write takes its bytes only after `wdelay_us`
+	Duplex   bool `json:"duplex,omitempty"`
+	WdelayUs int  `json:"wdelay_us,omitempty"`
 	RtMs   int `json:"rt_ms,omitempty"`
 	WtMs   int `json:"wt_ms,omitempty"`
 	CgapMs int `json:"cgap_ms,omitempty"`
@@ -384,6 +388,7 @@ type tunOut struct {
 	expected bool   // the harness's own comparison with the specification, only used to decide on a re-measurement
 	Lookup   string `json:"lookup"` // what the proxy's Lookup call returned: none (not called) | miss | hit
 	Served   bool   `json:"served"` // ServeTCP returned / client connection ended within the bound
+	EofSeen  bool   `json:"eof_seen"` // orders in which the client finishes first: the upstream saw EOF while it was still open
 	Raddr    string `json:"raddr"`  // in.RemoteAddr().String()
 	Laddr    string `json:"laddr"`
 	// the earlier connection through the same handler (input field `warm`)
@@ -540,6 +545,18 @@ func runTunnelOnce(raw json.RawMessage, attempt int) (interface{}, error) {
 	if in.PauseMs > 0 && in.Hold < len(cchunks) {
 		hold = in.Hold
 	}
+	duplex := in.Duplex && in.Transport == "script" && in.PauseMs == 0 && in.Hold < len(cchunks) && in.WdelayUs >= 0 && in.WdelayUs <= 20000
+	if duplex && in.Path == "sni" {
+		// the tunnel must be established by the segments that are not held back
+		var head []byte
+		for _, c := range cchunks[:in.Hold] {
+			head = append(head, c...)
+		}
+		duplex = helloComplete(head)
+	}
+	if duplex {
+		hold = in.Hold
+	}
 	dialT := waitT
 	if in.DialMs > 0 {
 		dialT = time.Duration(in.DialMs) * time.Millisecond
@@ -663,7 +680,8 @@ func runTunnelOnce(raw json.RawMessage, attempt int) (interface{}, error) {
 		if warmLookup.Load() == 2 {
 			// dialled (the listener is listening): accepted, and read to the end
 			if waitFor(hardT, wdone, wu.isAccepted) == wOK {
-				must("the upstream to see the earlier connection's stream end", waitFor(hardT, nil, wu.ep.ended))
+				// (told or not — that is judged on the measured connection — the upstream then finishes)
+				waitFor(softT(attempt), nil, wu.ep.ended)
 				if c, ok := wu.ep.c().(*net.TCPConn); ok {
 					c.CloseWrite()
 				}
@@ -697,6 +715,9 @@ func runTunnelOnce(raw json.RawMessage, attempt int) (interface{}, error) {
 	if in.Transport == "script" {
 		sc = newScriptConn(evs, laddr, raddr)
 		sc.hold = hold
+		if duplex {
+			sc.unholdOnWrite, sc.wdelay = true, time.Duration(in.WdelayUs)*time.Microsecond
+		}
 		clientRecv = sc.nWritten
 		go func() {
 			defer close(done)
@@ -761,7 +782,14 @@ func runTunnelOnce(raw json.RawMessage, attempt int) (interface{}, error) {
 		must("the proxy to take the first segments", waitFor(hardT, done, sc.drained))
 	}
 	if sc != nil {
-		if hold >= 0 {
+		if duplex {
+			// the held segments go out when the proxy starts writing upstream data to the client; when the
+			// upstream has written everything (or nothing) they go out at the latest
+			if expectTunnel && in.Hold > 0 && waitFor(hardT, done, up.isAccepted) == wOK {
+				<-uwritten
+			}
+			sc.unhold()
+		} else if hold >= 0 {
 			// the client is silent for a while (longer than the configured dial timeout), then goes on
 			time.Sleep(time.Duration(in.PauseMs) * time.Millisecond)
 			sc.unhold()
@@ -821,11 +849,21 @@ func runTunnelOnce(raw json.RawMessage, attempt int) (interface{}, error) {
 			c.CloseWrite()
 		}
 	}
+	// When the client has finished the upstream must learn it (EOF behind the client's last byte). That is an event
+	// the code under test owes, not the harness: soft bound (longer behind a large burst towards a slow consumer),
+	// reported as `eof_seen`, re-measured like a missing byte. An upstream that was not told gives up and finishes.
+	eofSeen := true
+	upSawEnd := func() {
+		if waitFor(softT(attempt)+time.Duration(in.Burst>>20)*time.Second, nil, up.ep.ended) != wOK {
+			softHits++
+			eofSeen = false
+		}
+	}
 	switch in.Order {
 	case "client":
 		finishClient()
 		if up.isAccepted() {
-			must("the upstream to see the end of the client's stream", waitFor(hardT, nil, up.ep.ended))
+			upSawEnd()
 			finishUpstream()
 		}
 	case "upstream":
@@ -837,7 +875,7 @@ func runTunnelOnce(raw json.RawMessage, attempt int) (interface{}, error) {
 	case "halfclose":
 		finishClient()
 		if up.isAccepted() {
-			must("the upstream to see the end of the client's stream", waitFor(hardT, nil, up.ep.ended))
+			upSawEnd()
 			writeSegs(up.ep.c(), reply, false)
 			finishUpstream()
 		}
@@ -846,7 +884,7 @@ func runTunnelOnce(raw json.RawMessage, attempt int) (interface{}, error) {
 		// arrived the server closes the client connection (what Server.Shutdown/Close do): the handler has to end
 		finishClient()
 		if up.isAccepted() {
-			must("the upstream to see the end of the client's stream", waitFor(hardT, nil, up.ep.ended))
+			upSawEnd()
 			writeSegs(up.ep.c(), reply, false)
 			softWait(attempt, hdone, func() bool { return clientRecv() >= ulen+rlen })
 		}
@@ -918,7 +956,7 @@ func runTunnelOnce(raw json.RawMessage, attempt int) (interface{}, error) {
 	wantUp = append(wantUp, cstream...)
 	expected := !expectTunnel
 	if mainLookup.Load() == 2 {
-		expected = bytes.Equal(upb, wantUp) && bytes.Equal(clb, wantCl) && bgot == in.Burst && bok && served
+		expected = bytes.Equal(upb, wantUp) && bytes.Equal(clb, wantCl) && bgot == in.Burst && bok && served && eofSeen
 	}
 	if in.Warm != nil && warmLookup.Load() == 2 {
 		wb, _ := hex.DecodeString(warmOut.WarmUp)
@@ -926,7 +964,7 @@ func runTunnelOnce(raw json.RawMessage, attempt int) (interface{}, error) {
 	}
 	res := warmOut
 	res.expected, res.Up, res.Cl, res.Accepted, res.UpEnd, res.Served = expected, hx2(upb), hx2(clb), up.isAccepted(), upend, served
-	res.BurstGot, res.BurstOK = bgot, bok
+	res.BurstGot, res.BurstOK, res.EofSeen = bgot, bok, eofSeen
 	res.Lookup = []string{"none", "miss", "hit"}[mainLookup.Load()]
 	res.Raddr, res.Laddr = raddr.String(), laddr.String()
 	return res, nil
@@ -1108,6 +1146,26 @@ func genTunnelWith(r *hx.Rand, order string) tunIn {
 		in.PauseMs = 3*in.DialMs/2 + 30 // a lower bound: a loaded machine only makes the client later
 		in.Hold = r.Intn(len(segs))
 		in.Pxy = !r.Chance(1, 3)
+	case in.Transport == "script" && len(segs) >= 2 && r.Chance(1, 8):
+		// full-duplex overlap; every other time with an upstream segment larger than the copy buffer
+		in.Duplex = true
+		in.WdelayUs = r.Range(200, 3000)
+		in.Hold = r.Range(1, len(segs)-1)
+		if hl > 0 {
+			n, k := 0, 0
+			for k < len(segs) && n < hl {
+				n += len(segs[k])
+				k++
+			}
+			if k >= len(segs) {
+				in.Duplex = false
+			} else if in.Hold < k {
+				in.Hold = k
+			}
+		}
+		if r.Chance(1, 2) {
+			in.Usegs = hexes(append(cut(r, patBytes(r, r.Range(1, 3000)), r.Intn(2)), patBytes(r, r.Range(32*1024+1, 70*1024))))
+		}
 	case r.Chance(1, 6):
 		in.Warm = genWarm(r, &in)
 	case in.Transport == "tcp" && order == "client" && r.Chance(1, 40):
